@@ -423,6 +423,12 @@ class Gen:
                 c["done_attr"] = r.choice(["1", "0", "true"])
         for c in self.comments:
             c.pop("_root_of", None)
+        if r.random() < self.p.get("unrelated_parts", 0.0):
+            # comment parts that are typed in [Content_Types] but not related from the main part
+            for k in parts:
+                if parts[k] and r.random() < 0.6:
+                    parts[k] = "unrelated"
+            self.features.add("unrelated_parts")
         doc["comments"] = self.comments
         doc["parts"] = parts
         doc["comments_ex"], doc["comments_ids"], doc["comments_cex"] = ex, ids, cex
